@@ -1,5 +1,5 @@
 CLAIMED['C19'] = dict(
-	text='Five Coq theorems (Props/C19.v, closed under the global context) over the call sequence dump_ops of one signature-file write '
+	text='Eight Coq theorems (Props/C19.v, closed under the global context) over the call sequence dump_ops of one signature-file write '
 	     '(Model/Store.v, shared with C12), quantified over every collection, both write paths and EVERY prefix of the call sequence '
 	     '(crash between any two storage-library calls, including after the last call and before close): under the durability policy '
 	     'AtClose (what is on disk before close cannot be parsed by libhdf5 -- a stated hypothesis, `unparsable junk`) every interrupted '
@@ -8,10 +8,15 @@ CLAIMED['C19'] = dict(
 	     'on that policy is proved, not hidden: under an eager-flush policy a crash before the last per-signature write loads as a '
 	     'collection with a zero-filled signature (C19_eager_refuted, vm_compute witness), while every crash before the values dataset '
 	     'exists -- and every crash of the whole-array path -- is still refused (C19_eager_window, C19_eager_whole). '
+	     'The output path may already hold a file (Model/StoreOver.v): with the repository\'s truncating open (mode w), once the writer has '
+	     'opened the path every crash point is refused and a file that loads is the requested collection WHATEVER the path held before '
+	     '(C19_overwrite_truncate, C19_overwrite_complete, for every old disk content); an in-place writer (open r+ and rewrite the datasets) '
+	     'is not safe even under AtClose: over a complete file of another collection it leaves a file that loads with the new ids, the old '
+	     'metadata and mixed signatures (C19_overwrite_inplace_refuted, vm_compute witness; this is the shape a seeded change had). '
 	     'The AtClose hypothesis and the call sequence are validated by fault enumeration on every run: the writer runs in a forked '
 	     'child with the three h5py entry points counted and is killed (os._exit) at every boundary 0..N of ~35 collections (quick; 661 '
 	     'kills), the observed calls must equal the model prefix, the remains must be refused with the model\'s error class, the '
-	     'completed write must load as written; multi-megabyte payloads in the thorough tier. The command-line writer is covered as well: `gambit signatures create` is run in a child process and killed before, during and after the signature calculation and at every storage-call boundary (cli_kill kind); whatever is left at the output path must be refused or load as exactly the requested collection.',
+	     'completed write must load as written; multi-megabyte payloads in the thorough tier. The command-line writer is covered as well: `gambit signatures create` is run in a child process and killed before, during and after the signature calculation and at every storage-call boundary (cli_kill kind); whatever is left at the output path must be refused or load as exactly the requested collection. Both kill kinds also start from an output path that already holds another, the same, a truncated or a foreign file (over_kill kind, field pre of cli_kill) and judge every kill point after the writer opened the path.',
 	note='Trusted: Coq kernel; extraction + OCaml driver; libhdf5/OS durability (AtClose) -- an assumption of C19_atclose/C19_complete, '
 	     'observed at every enumerated boundary but not provable from the repository\'s code; os._exit as a model of process death; kills '
 	     'inside a libhdf5 call are not enumerated; h5py interception sees all storage calls (cross-checked against the model call list). '
